@@ -58,6 +58,23 @@ def _digest(prot):
     return out
 
 
+class _Lazy:
+    """build a case on first use, outside the symbolic tracer: a failure of the (concrete) graph construction then
+    surfaces inside the condition that needs it - and is reported for that property - instead of breaking the import
+    of this module for every property"""
+
+    def __init__(self, build):
+        self.__dict__['_build'] = build
+        self.__dict__['_obj'] = None
+
+    def __getattr__(self, name):
+        if self.__dict__['_obj'] is None:
+            from crosshair.tracers import NoTracing
+            with NoTracing():
+                self.__dict__['_obj'] = self.__dict__['_build']()
+        return getattr(self.__dict__['_obj'], name)
+
+
 class _OrdSet(set):
     """environment model of an unordered set: iteration order = serial order of the members, reversed when the
     flag of this set is on.  Python leaves the order unspecified (PVGNode hashes by address), so every order is a
@@ -192,14 +209,14 @@ STUBS = ['graph built concretely by the real pipeline before the symbolic run (n
 
 # MASTEDLVK | AADEGLVSTK | GGHLR | VVLIDEFYAK ; SNV E->V in peptide 1 (GAA->GTA), SNV D->E in peptide 2 (GAC->GAG)
 # 'ASTVDLVK' (the M-removed variant form of peptide 1) is canonical through another protein: only 'MASTEVLVK' is owed
-CASE_A = _Case('MASTEDLVKAADEGLVSTKGGHLRVVLIDEFYAK', [(4 * 3 + 1, 'A', 'T'), (11 * 3 + 2, 'C', 'G')],
-               extra_canonical=['ASTVDLVK'])
+CASE_A = _Lazy(lambda: _Case('MASTEDLVKAADEGLVSTKGGHLRVVLIDEFYAK', [(4 * 3 + 1, 'A', 'T'), (11 * 3 + 2, 'C', 'G')],
+                             extra_canonical=['ASTVDLVK']))
 # K->N removes a cleavage site (AAA->AAC) in peptide 1; in-frame deletion of one codon in peptide 3
-CASE_B = _Case('MASTEDLVKAADEGLVSTKGGHLRVVLIDEFYAK', [(8 * 3 + 2, 'A', 'C'), (19 * 3 + 2, 'TGGT', 'T')])
+CASE_B = _Lazy(lambda: _Case('MASTEDLVKAADEGLVSTKGGHLRVVLIDEFYAK', [(8 * 3 + 2, 'A', 'C'), (19 * 3 + 2, 'TGGT', 'T')]))
 
 # three SNVs inside peptide 2 (8 forms of it) with --min-nodes-to-collapse 3 --naa-to-collapse 3: the bubble is pop-collapsed
-CASE_C = _Case('MASTEDLVKAADEGLVSTKGGHLRVVLIDEFYAK', [(11 * 3 + 2, 'C', 'G'), (13 * 3 + 1, 'G', 'C'), (16 * 3 + 1, 'C', 'A')],
-               collapse=(3, 3))
+CASE_C = _Lazy(lambda: _Case('MASTEDLVKAADEGLVSTKGGHLRVVLIDEFYAK',
+                             [(11 * 3 + 2, 'C', 'G'), (13 * 3 + 1, 'G', 'C'), (16 * 3 + 1, 'C', 'A')], collapse=(3, 3)))
 
 _BA = ('ONE concrete transcript (34 codons, 4 tryptic peptides) with 2 concrete SNVs; miscleavage = %s, min_length and '
        'max_length UNBOUNDED symbolic integers')
@@ -340,7 +357,7 @@ CODES_N = {-1: 'a digestion product of some ATG-to-stop ORF (any frame) within t
            -4: 'a reported peptide is not a digestion product of any ATG-to-stop ORF within the miscleavage limit'}
 # frame 0: M A S K M L D E R G H L K * ...   frame 1 has an ORF running to the transcript end
 _TXN = ('ATGGCTTCTAAAATGCTGGACGAACGTGGTCACCTGAAATAA' 'C' 'ATGACTGAAGTTCGTGCTGCTGACAAAGGTGGT')
-CASE_N = _NovelCase(_TXN, canonical=['GHLK', 'ASK'])   # 'ASK' = M-removed first peptide: 'MASK' is still owed
+CASE_N = _Lazy(lambda: _NovelCase(_TXN, canonical=['GHLK', 'ASK']))   # 'ASK' = M-removed first peptide: 'MASK' is still owed
 _BN = ('ONE concrete non-coding transcript (76 nt; nested ATGs, an ORF ending at a stop and one running to the transcript '
        'end; two canonical peptides in the pool, one of them the M-removed form of the first peptide of an ORF); miscleavage = %s, min_length and max_length UNBOUNDED symbolic integers')
 ENC_N = ['moPepGen.svgraph.PeptideVariantGraph.PeptideVariantGraph.call_variant_peptides / call_and_stage_unknown_orf / '
@@ -482,7 +499,7 @@ ENC_ALT = ['moPepGen.cli.call_alt_translation.call_alt_translation_main (graph c
            'moPepGen.svgraph.VariantPeptideDict.VariantPeptideDict.translational_modification / find_codon_reassignments']
 _BALT = ('ONE concrete selenoprotein transcript (22 codons: 4 tryptic peptides, one annotated Sec codon, 3 tryptophans); flags '
          '%s; miscleavage = %s, min_length and max_length UNBOUNDED symbolic integers')
-CASE_ALT = _AltCase()
+CASE_ALT = _Lazy(_AltCase)
 
 
 def _mkalt(name, sect, w2f, misc, tiers):
@@ -505,3 +522,298 @@ c09_traversal_w2f_1 = _mkalt('c09_traversal_w2f_1', False, True, 1, ('quick', 't
 c09_traversal_both_0 = _mkalt('c09_traversal_both_0', True, True, 0, ('quick', 'thorough'))
 c09_traversal_both_1 = _mkalt('c09_traversal_both_1', True, True, 1, ('quick', 'thorough'))
 c09_traversal_both_2 = _mkalt('c09_traversal_both_2', True, True, 2, ('thorough',))
+
+
+# --------------------------------------------------------------------------
+# C05: adding a variant record only adds peptides, each naming the added variant (same limits, symbolic)
+# --------------------------------------------------------------------------
+CASE_A_SUB = _Lazy(lambda: _Case('MASTEDLVKAADEGLVSTKGGHLRVVLIDEFYAK', [(4 * 3 + 1, 'A', 'T')],
+                                 extra_canonical=['ASTVDLVK']))
+_ADDED_ID = 'SNV-%d-C-G' % (len(UTR5) + 11 * 3 + 2 + 1)
+
+
+def _added_variant(misc, lo, hi):
+    def labelled(case):
+        from crosshair.tracers import NoTracing
+        with NoTracing():
+            pg = copy.deepcopy(case.graph)
+        pg.cleavage_params = CleavageParams(enzyme='trypsin', miscleavage=misc, min_length=lo, max_length=hi, min_mw=0.)
+        res = pg.call_variant_peptides(denylist=case.deny, truncate_sec=False, w2f=False,
+                                       check_external_variants=True, check_orf=False)
+        return {str(s): [x.label for x in labs] for s, labs in res.items()}
+    small, big = labelled(CASE_A_SUB), labelled(CASE_A)
+    for p in small:
+        if p not in big:
+            return -1              # adding a variant record removed a peptide
+    for p, labs in big.items():
+        if p in small:
+            continue
+        if not any(_ADDED_ID in lab.split('|') for lab in labs):
+            return -2              # an added peptide does not name the added variant
+    if lo <= hi and not big and misc >= 0 and lo <= 9 <= hi:
+        return -3
+    return OK
+
+
+def _mkadd(name, misc, tiers):
+    def f(lo: int, hi: int) -> int:
+        """
+        pre: 1 <= lo
+        post: _ >= 0
+        """
+        return _added_variant(misc, lo, hi)
+    f.__name__ = f.__qualname__ = name
+    return cond('C05', bounds='ONE concrete transcript; variant set {SNV1} versus {SNV1, SNV2}; miscleavage = %s, min_length '
+                'and max_length UNBOUNDED symbolic integers (the same values for both runs)' % misc, encodes=ENC, stubs=STUBS,
+                codes={-1: 'adding a variant record removed a peptide from the output',
+                       -2: 'a peptide added by the extra variant record does not name that variant in any header entry',
+                       -3: 'no peptide reported although a 9-residue variant peptide is within the limits'},
+                timeout=900, tiers=tiers)(f)
+
+
+c05_added_variant_0 = _mkadd('c05_added_variant_0', 0, ('quick', 'thorough'))
+c05_added_variant_1 = _mkadd('c05_added_variant_1', 1, ('quick', 'thorough'))
+c05_added_variant_2 = _mkadd('c05_added_variant_2', 2, ('thorough',))
+
+
+# --------------------------------------------------------------------------
+# C15 (second half) / C01 / C02: fusion transcript, concrete, symbolic limits
+# --------------------------------------------------------------------------
+class _Pool:
+    """variant pool stand-in without further variants"""
+
+    def __contains__(self, key):
+        return False
+
+    def filter_variants(self, **kwargs):
+        return []
+
+
+class _Ref:
+    def __init__(self, anno, genome):
+        self.anno, self.genome = anno, genome
+
+
+class _FusionCase:
+    DONOR = 'MASTEDLVKAADEGLVSTKGGHLRVVK'
+    ACCEPTOR = 'MQNHIDELLKSSYTEFKAAGRHVVDK'
+
+    def __init__(self, donor_codons, acceptor_offset):
+        """donor transcript up to `donor_codons` codons of its CDS, then the acceptor transcript from
+        `acceptor_offset` nt into ITS CDS"""
+        import sys
+        from moPepGen import dna, gtf, svgraph
+        from mpgverif.harness.annobuild import gene_model, tx_model
+        import moPepGen.cli.call_variant_peptide  # noqa: F401
+        cvp = sys.modules['moPepGen.cli.call_variant_peptide']
+        d_cds = ''.join(CODON[a] for a in self.DONOR)
+        a_cds = ''.join(CODON[a] for a in self.ACCEPTOR)
+        d_tx = UTR5 + d_cds + 'TAA' + UTR3
+        a_tx = 'GGCTCAGTCC' + a_cds + 'TGA' + 'CCGTTAGC'
+        gap = 'TTTTTTTTTT'
+        chrom = d_tx + gap + a_tx
+        a0 = len(d_tx) + len(gap)
+        self.fused = d_tx[:len(UTR5) + 3 * donor_codons] + a_tx[10 + acceptor_offset:]
+        txs = {'T1': tx_model('T1', 'G1', 'chr1', 1, [(0, len(d_tx))], cds=[(len(UTR5), len(UTR5) + len(d_cds))],
+                              three_utr=[(len(UTR5) + len(d_cds) + 3, len(d_tx))]),
+               'T2': tx_model('T2', 'G2', 'chr1', 1, [(a0, a0 + len(a_tx))], cds=[(a0 + 10, a0 + 10 + len(a_cds))],
+                              three_utr=[(a0 + 10 + len(a_cds) + 3, a0 + len(a_tx))])}
+        genes = {'G1': gene_model('G1', 'chr1', 0, len(d_tx), 1, ['T1']),
+                 'G2': gene_model('G2', 'chr1', a0, a0 + len(a_tx), 1, ['T2'])}
+        anno = gtf.GenomicAnnotation(genes=genes, transcripts=txs, source='GENCODE')
+        genome = dna.DNASeqDict({'chr1': dna.DNASeqRecord(Seq(chrom), id='chr1', name='chr1', description='chr1')})
+        tx_seqs = {t: m.get_transcript_sequence(genome['chr1']) for t, m in txs.items()}
+        bp = len(UTR5) + 3 * donor_codons
+        fusion = VariantRecord(
+            location=FeatureLocation(seqname='T1', start=bp, end=bp + 1), ref=d_tx[bp], alt='<FUSION>', _type='Fusion',
+            _id=f'FUSION-T1:{bp}-T2:{10 + acceptor_offset}',
+            attrs={'GENE_ID': 'G1', 'TRANSCRIPT_ID': 'T1', 'ACCEPTER_GENE_ID': 'G2', 'ACCEPTER_TRANSCRIPT_ID': 'T2',
+                   'ACCEPTER_POSITION': 10 + acceptor_offset, 'ACCEPTER_SYMBOL': 'G2N', 'GENE_SYMBOL': 'G1N',
+                   'LEFT_INSERTION_START': None, 'LEFT_INSERTION_END': None, 'RIGHT_INSERTION_START': None,
+                   'RIGHT_INSERTION_END': None})
+        canon = {p for p, k in _digest(self.DONOR)} | {p for p, k in _digest(self.ACCEPTOR)}
+        self.ref = canon
+        self.deny = {Seq(p) for p in canon}
+        real = svgraph.PeptideVariantGraph.call_variant_peptides
+
+        def capture(pg, **kwargs):
+            raise _Captured(pg, kwargs)
+
+        p = CleavageParams(enzyme='trypsin', miscleavage=2, min_length=1, max_length=100, min_mw=0.)
+        svgraph.PeptideVariantGraph.call_variant_peptides = capture
+        try:
+            cvp.call_peptide_fusion(variant=fusion, variant_pool=_Pool(), ref=_Ref(anno, genome), tx_seqs=tx_seqs,
+                                    gene_seqs={}, cleavage_params=p, max_adjacent_as_mnv=2, w2f_reassignment=False,
+                                    denylist=self.deny, save_graph=False, coding_novel_orf=False)
+            raise RuntimeError('call_variant_peptides was not reached')
+        except _Captured as c:
+            _order_sets(c.pgraph)
+            self.graph, self.kwargs = c.pgraph, c.kwargs
+        finally:
+            svgraph.PeptideVariantGraph.call_variant_peptides = real
+        prot = _translate(self.fused[len(UTR5):])
+        self.prot = prot
+        self.cands = {(q, k) for q, k in _digest(prot) if q and q not in canon}
+
+    def run(self, misc, lo, hi):
+        from crosshair.tracers import NoTracing
+        with NoTracing():
+            pg, kwargs = copy.deepcopy((self.graph, self.kwargs))
+        pg.cleavage_params = CleavageParams(enzyme='trypsin', miscleavage=misc, min_length=lo, max_length=hi, min_mw=0.)
+        return pg.call_variant_peptides(**kwargs)
+
+    def check(self, misc, lo, hi):
+        res = self.run(misc, lo, hi)
+        got = {str(s) for s in res}
+        want = {p for p, k in self.cands if k <= misc and lo <= len(p) <= hi}
+        if want - got:
+            return -1
+        if got - want:
+            return -2
+        for s, labels in res.items():
+            for lab in labels:
+                if not lab.label.startswith('FUSION-T1:'):
+                    return -3
+        return OK
+
+
+CODES_F = {-1: 'a digestion product of the fused sequence (donor up to the breakpoint + acceptor from its breakpoint, read from '
+               'the donor start codon) that is not canonical is not reported',
+           -2: 'a reported peptide is not a non-canonical digestion product of the fused sequence within the limits',
+           -3: 'a header entry does not name the fusion as backbone'}
+ENC_F = ['moPepGen.cli.call_variant_peptide.call_peptide_fusion (graph construction incl. ThreeFrameTVG.apply_fusion: concrete, '
+         'before the symbolic run)', 'moPepGen.svgraph.PeptideVariantGraph.PeptideVariantGraph.call_variant_peptides / '
+         'call_and_stage_known_orf*', 'moPepGen.svgraph.VariantPeptideDict.*']
+_BF = ('ONE concrete fusion: donor transcript (27 codons) cut after codon 13, acceptor transcript (26 codons) entered %s; both '
+       'breakpoints exonic; no further variants; canonical pool = digests of both proteins; miscleavage = %s, min_length and '
+       'max_length UNBOUNDED symbolic integers')
+CASE_F_IN = _Lazy(lambda: _FusionCase(13, 6))
+CASE_F_FS = _Lazy(lambda: _FusionCase(13, 4))
+
+
+def _mkf(name, case, how, misc, tiers):
+    def f(lo: int, hi: int) -> int:
+        """
+        pre: 1 <= lo
+        post: _ >= 0
+        """
+        return case.check(misc, lo, hi)
+    f.__name__ = f.__qualname__ = name
+    return cond('C15', bounds=_BF % (how, misc), encodes=ENC_F, stubs=STUBS + ['variant pool -> stand-in without further variants'],
+                codes=CODES_F, timeout=900, tiers=tiers)(f)
+
+
+c15_fusion_traversal_in_0 = _mkf('c15_fusion_traversal_in_0', CASE_F_IN, 'in frame (6 nt into its CDS)', 0, ('quick', 'thorough'))
+c15_fusion_traversal_in_1 = _mkf('c15_fusion_traversal_in_1', CASE_F_IN, 'in frame (6 nt into its CDS)', 1, ('quick', 'thorough'))
+c15_fusion_traversal_fs_0 = _mkf('c15_fusion_traversal_fs_0', CASE_F_FS, 'out of frame (4 nt into its CDS)', 0, ('quick', 'thorough'))
+c15_fusion_traversal_fs_1 = _mkf('c15_fusion_traversal_fs_1', CASE_F_FS, 'out of frame (4 nt into its CDS)', 1, ('quick', 'thorough'))
+c15_fusion_traversal_in_2 = _mkf('c15_fusion_traversal_in_2', CASE_F_IN, 'in frame (6 nt into its CDS)', 2, ('thorough',))
+
+
+# --------------------------------------------------------------------------
+# C01 / C02 circRNA clause (+ C05 backsplicing-only): concrete circRNA of two exons, symbolic limits
+# --------------------------------------------------------------------------
+class _CircCase:
+    """gene = exon1 | intron | exon2; the circRNA joins the end of exon2 back to the start of exon1.  Reading the circle
+    from its ATG gives M A S T E D L V K A A D E G L V S T K G G H L R, runs over the back-splice junction into a second,
+    frame-shifted lap and stops there."""
+
+    def __init__(self):
+        import sys
+        from moPepGen import circ, dna
+        from moPepGen.SeqFeature import SeqFeature
+        import moPepGen.cli.call_variant_peptide  # noqa: F401
+        cvp = sys.modules['moPepGen.cli.call_variant_peptide']
+        from moPepGen import svgraph
+        prot = 'MASTEDLVKAADEGLVSTKGGHLR'
+        cds = ''.join(CODON[a] for a in prot)
+        e1, intron, e2 = 'GC' + cds[:40], 'GTAAGTTTTTTTTTTCAG', cds[40:] + 'GCATT'
+        gene = e1 + intron + e2
+        self.circle = e1 + e2
+        frags = [(0, len(e1)), (len(e1) + len(intron), len(gene))]
+        loc = MatchedLocation(query=FeatureLocation(start=0, end=len(gene)),
+                              ref=FeatureLocation(seqname='G1', start=0, end=len(gene)))
+        gene_seq = dna.DNASeqRecordWithCoordinates(Seq(gene), locations=[loc], orf=None)
+        fr = [SeqFeature(chrom='G1', location=FeatureLocation(seqname='G1', start=a, end=b), attributes={})
+              for a, b in frags]
+        rec = circ.CircRNAModel('T1', fr, [], 'CIRC-T1-0:%d' % len(gene), 'G1', 'G1N')
+        # canonical pool: the linear protein of the host transcript
+        self.ref = {p for p, k in _digest(prot)}
+        self.deny = {Seq(p) for p in self.ref}
+        self.graphs = {}
+        real = svgraph.PeptideVariantGraph.call_variant_peptides
+
+        def capture(pg, **kwargs):
+            raise _Captured(pg, kwargs)
+
+        for bs in (False, True):
+            p = CleavageParams(enzyme='trypsin', miscleavage=2, min_length=1, max_length=100, min_mw=0.)
+            svgraph.PeptideVariantGraph.call_variant_peptides = capture
+            try:
+                cvp.call_peptide_circ_rna(record=copy.deepcopy(rec), variant_pool=_Pool(), gene_seqs={'G1': gene_seq},
+                                          cleavage_params=p, max_adjacent_as_mnv=2, backsplicing_only=bs,
+                                          w2f_reassignment=False, denylist=self.deny, save_graph=False)
+                raise RuntimeError('call_variant_peptides was not reached')
+            except _Captured as c:
+                _order_sets(c.pgraph)
+                self.graphs[bs] = (c.pgraph, c.kwargs)
+            finally:
+                svgraph.PeptideVariantGraph.call_variant_peptides = real
+        ext = self.circle * 4
+        self.cands = set()
+        for i in range(len(self.circle)):
+            if ext[i:i + 3] != 'ATG':
+                continue
+            orf = _NovelCase._translate_all(ext[i:])
+            j = orf.find('*')
+            orf = orf if j == -1 else orf[:j]
+            self.cands |= {(q, k) for q, k in _digest(orf) if q and q not in self.ref}
+
+    def run(self, bs, misc, lo, hi):
+        from crosshair.tracers import NoTracing
+        with NoTracing():
+            pg, kwargs = copy.deepcopy(self.graphs[bs])
+        pg.cleavage_params = CleavageParams(enzyme='trypsin', miscleavage=misc, min_length=lo, max_length=hi, min_mw=0.)
+        return {str(s) for s in pg.call_variant_peptides(**kwargs)}
+
+    def check(self, misc, lo, hi):
+        got = self.run(False, misc, lo, hi)
+        want = {p for p, k in self.cands if k <= misc and lo <= len(p) <= hi}
+        if want - got:
+            return -1
+        if got - want:
+            return -2
+        if not self.run(True, misc, lo, hi) <= got:
+            return -3
+        return OK
+
+
+CASE_CIRC = _Lazy(_CircCase)
+CODES_CIRC = {-1: 'a non-canonical digestion product of the circular reading (any ATG of the circle, read around the '
+                  'back-splice junction until a stop) within the limits is not reported',
+              -2: 'a reported peptide is not such a digestion product',
+              -3: '--backsplicing-only reports a peptide that the unrestricted run does not'}
+ENC_CIRC = ['moPepGen.cli.call_variant_peptide.call_peptide_circ_rna (ThreeFrameCVG construction, extend_loop, '
+            'truncate_three_frames: concrete, before the symbolic run)',
+            'moPepGen.svgraph.PeptideVariantGraph.PeptideVariantGraph.call_variant_peptides / call_and_stage_unknown_orf',
+            'moPepGen.svgraph.VariantPeptideDict.*']
+
+
+def _mkcirc(prop, name, misc, tiers):
+    def f(lo: int, hi: int) -> int:
+        """
+        pre: 1 <= lo
+        post: _ >= 0
+        """
+        return CASE_CIRC.check(misc, lo, hi)
+    f.__name__ = f.__qualname__ = name
+    return cond(prop, bounds='ONE concrete circRNA of two exons (91 nt, one ATG, the reading crosses the back-splice junction '
+                'once and stops in the second lap), no further variants, canonical pool = digest of the linear protein; '
+                'unrestricted and --backsplicing-only; miscleavage = %s, min_length and max_length UNBOUNDED symbolic '
+                'integers' % misc, encodes=ENC_CIRC, stubs=STUBS + ['variant pool -> stand-in without further variants'],
+                codes=CODES_CIRC, timeout=2400, tiers=tiers)(f)
+
+
+c01_circ_traversal_0 = _mkcirc('C01', 'c01_circ_traversal_0', 0, ('quick', 'thorough'))
+c01_circ_traversal_1 = _mkcirc('C01', 'c01_circ_traversal_1', 1, ('thorough',))
+c01_circ_traversal_2 = _mkcirc('C01', 'c01_circ_traversal_2', 2, ('thorough',))
